@@ -300,6 +300,13 @@ pub fn check_view<T>(v: &TensorView<T>, what: &str, out: &mut Vec<String>) -> bo
     let elem = std::mem::size_of::<T>().max(1) as u128;
     let before = out.len();
     let describe = |class: &str, extra: String| format!("{}|{} shape={:?} strides={:?} storage_len={} reported_len={} {}", class, what, shape, strides, storage_len, layout_len, extra);
+    // The data pointer must be aligned for the element type even when the
+    // constant is empty: the views handed to operators are built with
+    // slice::from_raw_parts, whose precondition this is.
+    let ptr = v.data_ptr() as usize;
+    if ptr % std::mem::align_of::<T>() != 0 {
+        out.push(describe("misaligned_data_pointer", format!("ptr%align={}", ptr % std::mem::align_of::<T>())));
+    }
     match checked_product(&shape) {
         None => out.push(describe("count_overflows_u128", String::new())),
         Some(p) => {
